@@ -130,7 +130,25 @@ class Check:
         return out
 
     # ------------------------------------------------------------------ 2. Coq
+    # coq/Gen/*.v, the .vo files and ocaml/gen/* are shared by all checks: a run holds this lock from the moment it regenerates
+    # Gen until it starts executing its (private, scratch) copies of harness and driver, so that concurrent checks built from
+    # different trees cannot swap generated tables under each other.
+    def _model_lock(self):
+        if getattr(self, "_mlock", None) is None:
+            os.makedirs(COQ, exist_ok=True)
+            self._mlock = open(os.path.join(COQ, ".lock"), "w")
+            fcntl.flock(self._mlock, fcntl.LOCK_EX)
+
+    def _model_unlock(self):
+        if getattr(self, "_mlock", None) is not None:
+            try:
+                fcntl.flock(self._mlock, fcntl.LOCK_UN); self._mlock.close()
+            except Exception:
+                pass
+            self._mlock = None
+
     def regen(self, gens):
+        self._model_lock()
         """Run translators: each is (script relative to tools/srcgen, [args]); they write coq/Gen/*.v
         only when the content changed (so unchanged sources do not trigger Coq rebuilds)."""
         for g in gens:
@@ -147,8 +165,9 @@ class Check:
     def coq_build(self, targets, timeout=3000):
         """make the given .vo targets (relative to coq/), serialised by a lock."""
         os.makedirs(COQ, exist_ok=True)
-        with open(os.path.join(COQ, ".lock"), "w") as lk:
-            fcntl.flock(lk, fcntl.LOCK_EX)
+        held = getattr(self, "_mlock", None) is not None
+        self._model_lock()
+        try:
             sh([os.path.join(VERIF, "tools/mkproject.sh")], check=True)
             if not os.path.exists(os.path.join(COQ, "Makefile.coq")) or \
                os.path.getmtime(os.path.join(COQ, "Makefile.coq")) < os.path.getmtime(os.path.join(COQ, "_CoqProject")):
@@ -159,6 +178,9 @@ class Check:
             self.checker_cmds.append("cd coq && " + " ".join(cmd))
             self.log("coq make %s rc=%d %.1fs" % (" ".join(targets), rc, time.time() - t))
             return rc, o + e
+        finally:
+            if not held:
+                self._model_unlock()
 
     def coq_properties(self, fname=None, deps=()):
         """Build the property file's closure, then run coqc on the Properties file itself to collect
@@ -180,9 +202,13 @@ class Check:
             return False
         # re-run coqc on the (small) properties file to capture Print Assumptions
         cmd = "coqc -q -Q . MV %s" % fname
-        with open(os.path.join(COQ, ".lock"), "w") as lk:
-            fcntl.flock(lk, fcntl.LOCK_EX)
+        held = getattr(self, "_mlock", None) is not None
+        self._model_lock()
+        try:
             rc, o, e = sh("timeout 900 " + cmd, cwd=COQ, timeout=1000)
+        finally:
+            if not held:
+                self._model_unlock()
         self.checker_cmds.append("cd coq && " + cmd)
         if rc != 0:
             for t in theorems:
@@ -270,6 +296,7 @@ class Check:
     # ------------------------------------------------------------------ 4. correspondence helpers
     def run_lines(self, exe, lines, timeout=1800, env=None, args=()):
         """Feed one case per line on stdin, expect one result line per case on stdout."""
+        self._model_unlock()        # from here on the run uses its private copies only
         inp = "\n".join(lines) + "\n"
         rc, o, e = sh([exe] + list(args), inp=inp, timeout=timeout, env=env)
         return rc, o.split("\n")[:-1] if o.endswith("\n") else o.split("\n"), e
@@ -336,6 +363,7 @@ class Check:
         if self.finished:
             return
         self.finished = True
+        self._model_unlock()
         ob_fail = [o for o in self.obligations if not o["ok"]]
         corr_fail = [c for c in self.corr if c["disagreements"]]
         # A broken obligation or correspondence with no concrete failing input found
